@@ -31,7 +31,7 @@ def optErr : Option Err → Json
 def slotStr : Slot → String
   | .titl => "titl" | .cell => "cell" | .zerr => "zerr" | .latt => "latt" | .symm => "symm" | .neut => "neut"
   | .sfac => "sfac" | .disp => "disp" | .unit => "unit" | .body => "body" | .fvar => "fvar" | .hklf => "hklf"
-  | .endd => "end" | .tail => "tail"
+  | .endd => "end" | .tail => "tail" | .frag => "frag" | .fend => "fend"
 
 def kindsJson (l : List Kind) : Json := Json.arr (l.map fun k => Json.str (kindStr k)).toArray
 
@@ -46,7 +46,7 @@ def ctxOf (j : Json) : Except String Ctx := do
   return { last := last, flags := flags }
 
 def testStr : Test → String
-  | .wordEq k => s!"word=={k}" | .wordIn ks => s!"word in {ks}" | .starts p => s!"startswith {p}"
+  | .wordEq k _ => s!"word=={k}" | .wordIn ks _ => s!"word in {ks}" | .starts p _ => s!"startswith {p}"
   | .isAtom => "is_atom" | .otherwise => "else"
 
 def T : Tables := Shelx.C02.Extracted.tables
@@ -58,7 +58,7 @@ def handle (j : Json) : Except String Json := do
     -- the specification's syntax table, so that generator and theorems share one table
     let rows := syntaxTable.map fun s => Json.mkObj [
       ("kw", Json.str s.kw), ("slot", Json.str (slotStr s.slot)), ("documented", Json.bool s.documented),
-      ("suffix", Json.bool s.suffix), ("forms", Json.arr (s.forms.map fun f => kindsJson f.toks).toArray)]
+      ("suffix", Json.bool s.suffix), ("forms", Json.arr (s.forms.eraseDups.map fun f => kindsJson f.toks).toArray)]
     return Json.mkObj [("syntax", Json.arr rows.toArray),
                        ("atoms", Json.arr (atomForms.map fun f => kindsJson f.toks).toArray),
                        ("branches", Json.num (JsonNumber.fromNat T.dispatch.length)),
